@@ -86,7 +86,7 @@ def oracle(ctx, prop, case, script, r, deaths_left=0):
         if out.startswith('internal'):
             ctx.fail(f'{out}:{cfg}', f'Pool.run ended with an internal {out.split(":")[1]} (script {" ".join(desc["script"])})', desc)
         elif out == 'livelock':
-            ctx.fail(f'livelock:{cfg}', 'Pool.run spins for ever re-offering an input that enqueue_fn refuses', desc)
+            ctx.fail(f'livelock:{cfg}', 'Pool.run spins for ever re-offering an input (to a worker whose enqueue_fn refuses it, or to a dead worker that is never declared dead)', desc)
         elif out == 'returned' and case['retry'] and case['rr']:
             if sorted(r['ret']) != sorted(inputs):
                 ctx.fail(f'wrong-results:{cfg}', f'Pool.run returned {r["ret"]} for inputs {inputs}', desc)
